@@ -12,7 +12,9 @@ rsync -a --delete --exclude .git --exclude replays --exclude 'build/tmp' /verif/
 cd "$VC"
 VERIF_REPO="$WT" timeout 3000 ./check "$PID" --tier "$TIER" > "$VC/seed.out" 2>&1
 RC=$?
-grep -E "VIOLATION|KNOWN-FINDING|Traceback|Error" "$VC/seed.out" | head -12
+grep -E "^VIOLATION" "$VC/seed.out" | head -4
+echo "known-finding lines: $(grep -c "^KNOWN-FINDING" "$VC/seed.out")"
+grep -E "Traceback|Error" "$VC/seed.out" | head -4
 echo "exit=$RC"
 git -C /repo worktree remove --force "$WT"
 cp "$VC/seed.out" /verif/build/seedtest-last-$PID.out 2>/dev/null
